@@ -6,15 +6,21 @@
     [intents env prefix g] are the values routecmd.build computes for the routing tags of a catalog
     entry g (service, route, destination, weight literal, plain tags, passed-through options);
     [render_intent] is the line of text it writes for one of them (since /repo d16ce3d the tags and
-    options stand between the quotes as they are); [validate] is its check of that line (no CR / LF,
-    NewTable accepts the line on its own); [build] = filter validate o map render_intent o intents.
+    options stand between the quotes as they are); [validate_intent] is its check of that line (since
+    /repo 9891ca3: no CR / LF, no double quote in the joined tags / options, route.Parse reads the line
+    back as exactly one definition with the registered service, route and destination, NewTable accepts
+    the line on its own); [build] = map render_intent o filter validate_intent o intents.
     [pweight], [canon], [glob_ok] stand for strconv.ParseFloat, url.Parse, glob.Compile: the theorems
     hold whatever these libraries answer.
     [expressible] is the decidable domain (Model/RouteCmd.v): name, route and destination are
     non-empty and free of white space, the path and the lower-cased host compile as globs, the
     destination parses as a URL, the weight literal is accepted by ParseFloat, tags and options
     contain no double quote, tags no comma / CR / LF / outer space, a sole tag is not empty.
-    The behaviour before d16ce3d (strconv.Quote, no validation) is [build_unrepaired]. *)
+    The behaviour before d16ce3d (strconv.Quote, no validation) is [build_unrepaired]; the behaviour
+    between d16ce3d and 9891ca3 (validated by NewTable, not read back) is [build_d16ce3d].
+    MECHANISM LEMMAS, not coverage: C14_dropped_never_removes_others and C14_history_independent say
+    that the MODEL of build has no state and no cross-entry dependence (true by its shape); that the
+    CODE has none is what the history / makeConfig classes of the correspondence run exercise. *)
 From Coq Require Import String List NArith ZArith.
 From Fabio Require Import Lib.Outcome Lib.Bytes Model.WtF64 Model.TableCmd Model.RouteText Model.RouteCmd
                           Proofs.TableCmd Proofs.RouteCmd.
@@ -31,6 +37,40 @@ Theorem C14_emitted_accepted_alone : forall pweight canon glob_ok env prefix g c
   /\ exists i, In i (intents env prefix g) /\ c = render_intent i.
 Proof. exact emitted_accepted_alone. Qed.
 Print Assumptions C14_emitted_accepted_alone.
+
+(* Every emitted command reads back as the service, route and destination of the routing tag it
+   was made from (9891ca3). *)
+Theorem C14_emitted_reads_back : forall pweight canon glob_ok env prefix g c,
+  In c (build pweight canon glob_ok env prefix g) ->
+  exists i d, In i (intents env prefix g) /\ c = render_intent i /\ parse pweight c = Ok [d]
+              /\ d_svc d = g_name g /\ d_src d = i_route i /\ d_dst d = i_dst i.
+Proof. exact emitted_reads_back. Qed.
+Print Assumptions C14_emitted_reads_back.
+
+(* Characterisation of what validate lets through (the converse of C14_expressible_validates): every
+   emitted command comes from an expressible routing tag -- then C14_build_parse_denotes applies --
+   or lies in the SYNTACTIC region of finding F-C14-2 (a comma in a plain tag, a sole empty plain
+   tag), or has a vertical tab in the name / route / destination (taken by the grammar's \S+, not by
+   [expressible], which is stated with Go's white space; harmless). *)
+Theorem C14_emitted_characterised : forall pweight canon glob_ok env prefix g c,
+  In c (build pweight canon glob_ok env prefix g) ->
+  exists i, In i (intents env prefix g) /\ c = render_intent i
+    /\ (intent_expressible pweight canon glob_ok i = true
+        \/ comma_in_tag i = true \/ sole_empty_tag i = true \/ vtab_in_word i = true).
+Proof. exact emitted_characterised. Qed.
+Print Assumptions C14_emitted_characterised.
+
+Theorem C14_validated_characterised : forall pweight canon glob_ok i,
+  intent_wf i = true -> validate_intent pweight canon glob_ok i = true ->
+  intent_expressible pweight canon glob_ok i = true
+  \/ comma_in_tag i = true \/ sole_empty_tag i = true \/ vtab_in_word i = true.
+Proof. exact validated_characterised. Qed.
+Print Assumptions C14_validated_characterised.
+
+(* ... where every intent build makes is well-formed *)
+Theorem C14_intents_wf : forall env prefix g i, In i (intents env prefix g) -> intent_wf i = true.
+Proof. exact intents_wf. Qed.
+Print Assumptions C14_intents_wf.
 
 (* Whatever the catalog entries are -- expressible or not -- the text makeConfig assembles from the
    emitted commands of ANY set of services (all commands, reverse-sorted, newline-joined) is accepted
@@ -74,6 +114,44 @@ Theorem C14_history_rounds_accepted : forall pweight canon glob_ok env prefix (r
 Proof. exact history_rounds_accepted. Qed.
 Print Assumptions C14_history_rounds_accepted.
 
+(* What a routing tag MEANS, stated independently of build's option loop: the destination is set
+   by the LAST option among proto=tcp|https|grpc|grpcs and well-formed redirect=<code>,<url>
+   (default http://addr/, addr = JoinHostPort(service address or node address, port)); the weight is
+   the literal of the LAST weight= option; the options passed on are the others in order, a
+   well-formed redirect as redirect=<code>.  With it "destination, protocol, weight, options" in
+   C14_build_parse_denotes refer to the registration. *)
+Theorem C14_intent_of_tag_meaning : forall env prefix g tag i, In i (intent_of_tag env prefix g tag) ->
+  exists route opts, parse_url_prefix_tag env prefix tag = Some (route, opts)
+    /\ i_svc i = g_name g /\ i_route i = route /\ i_tags i = svc_tags prefix g
+    /\ i_dst i = dst_spec (reg_addr g) (fields opts)
+    /\ i_weight i = weight_spec (fields opts)
+    /\ i_opts i = opts_spec (fields opts).
+Proof. exact intent_of_tag_meaning. Qed.
+Print Assumptions C14_intent_of_tag_meaning.
+
+Theorem C14_opts_meaning_examples :
+  let addr := bs "10.0.0.1:80" in
+  dst_spec addr [bs "proto=tcp"; bs "strip=/x"; bs "proto=https"] = bs "https://10.0.0.1:80"
+  /\ dst_spec addr [bs "proto=https"; bs "redirect=301,http://x.com/"; bs "weight=1"] = bs "http://x.com/"
+  /\ dst_spec addr [bs "redirect=301"; bs "proto=http"] = bs "http://10.0.0.1:80/"
+  /\ weight_spec [bs "weight=0.2"; bs "proto=tcp"; bs "weight=0.3"] = bs "0.3"
+  /\ opts_spec [bs "proto=http"; bs "weight=1"; bs "redirect=301,http://x.com/"; bs "redirect=302"; bs "strip=/x"; bs "proto=tcp"]
+     = [bs "proto=http"; bs "redirect=301"; bs "strip=/x"].
+Proof. exact opts_meaning_examples. Qed.
+Print Assumptions C14_opts_meaning_examples.
+
+(* the route part, on examples (the for-all reading of the route is the transcription
+   parse_url_prefix_tag / expand, tied to the code by the lib/urltag and lib/expand cases) *)
+Theorem C14_route_meaning_examples :
+  parse_url_prefix_tag env_dc pfx (bs " urlprefix-$DC.Foo.com/A/${DC}  strip=/A  proto=tcp ")
+    = Some (bs "dc1.foo.com/A/dc1", bs " strip=/A  proto=tcp")
+  /\ parse_url_prefix_tag env_dc pfx (bs "urlprefix-Foo.com:80") = Some (bs "Foo.com:80", [])
+  /\ parse_url_prefix_tag env_dc pfx (bs "urlprefix-:8080 proto=tcp") = Some (bs ":8080", bs "proto=tcp")
+  /\ parse_url_prefix_tag None pfx (bs "urlprefix-$DC.x/${DC}") = Some (bs ".x/", [])
+  /\ parse_url_prefix_tag env_dc pfx (bs "other-/x") = None.
+Proof. exact route_meaning_examples. Qed.
+Print Assumptions C14_route_meaning_examples.
+
 (* The parser is line-local: a list of lines is accepted iff every line is ... *)
 Theorem C14_parse_lines_independent : forall pweight ls,
   is_ok (parse_lines pweight ls) = forallb (line_ok pweight) ls.
@@ -91,8 +169,8 @@ Print Assumptions C14_one_bad_line_rejects_all.
 
 (* An expressible registration is never dropped ... *)
 Theorem C14_expressible_validates : forall pweight canon glob_ok i,
-  intent_expressible pweight canon glob_ok i = true -> validate pweight canon glob_ok (render_intent i) = true.
-Proof. exact expressible_validates. Qed.
+  intent_expressible pweight canon glob_ok i = true -> validate_intent pweight canon glob_ok i = true.
+Proof. exact expressible_validates_intent. Qed.
 Print Assumptions C14_expressible_validates.
 
 (* ... and, character level, full strength: every routing tag of an expressible entry yields a
@@ -174,7 +252,8 @@ Theorem C14_backslash_control_tags_roundtrip :
 Proof. exact backslash_control_tags_roundtrip. Qed.
 Print Assumptions C14_backslash_control_tags_roundtrip.
 
-(* ---------------- off the domain: what is left of F-C14-2 (region F_C14_altering) ---------------- *)
+(* ---------------- off the domain: what is left of F-C14-2 (syntactic region F_C14_altering =
+   comma_in_tag || sole_empty_tag) ---------------- *)
 Theorem C14_comma_tag_split_refuted :
   svc_tags pfx reg_comma = [bs "a,b"]
   /\ ex_parsed_tags reg_comma = Ok [[bs "a"; bs "b"]]
@@ -189,15 +268,24 @@ Theorem C14_sole_empty_tag_lost_refuted :
 Proof. exact sole_empty_tag_lost_refuted. Qed.
 Print Assumptions C14_sole_empty_tag_lost_refuted.
 
-Theorem C14_name_blank_altered_refuted :
-  g_name reg_name_blank = bs "svc "
-  /\ (match ex_build reg_name_blank with
-      | [c] => match parse pweight_dec c with Ok ds => Ok (map d_svc ds) | Err k => Err k | Panic => Panic end
-      | _ => Err 0
-      end) = Ok [bs "svc"]
-  /\ existsb ex_altering (ex_intents reg_name_blank) = true.
-Proof. exact name_blank_altered_refuted. Qed.
-Print Assumptions C14_name_blank_altered_refuted.
+(* ---------------- the code between d16ce3d and 9891ca3 (finding F-C14-4, repaired): accepted by the
+   table but never read back.  A service name whose extra words complete the grammar denoted ANOTHER
+   service, route and destination; a quote in a plain tag started an opts clause; a blank at the end
+   of the name changed the name.  The current build drops all three. ---------------- *)
+Theorem C14_name_injection_d16ce3d_refuted :
+  g_name reg_inject = bs "victim victim.com/ http://evil:80/"
+  /\ parsed_defs (ex_build_d16ce3d reg_inject)
+     = Ok [(bs "victim", bs "victim.com/", bs "http://evil:80/", [], [(bs "redirect", bs "301")])]
+  /\ existsb ex_unread (ex_intents reg_inject) = true
+  /\ parsed_defs (ex_build_d16ce3d reg_inject_tag)
+     = Ok [(bs "bad", bs "/bad", bs "http://10.0.0.2:80/", [bs "a"], [(bs "strip", bs "/x")])]
+  /\ existsb ex_unread (ex_intents reg_inject_tag) = true
+  /\ parsed_defs (ex_build_d16ce3d reg_name_blank)
+     = Ok [(bs "svc", bs "/bad", bs "http://10.0.0.2:80/", [], [])]
+  /\ existsb ex_unread (ex_intents reg_name_blank) = true
+  /\ ex_build reg_inject = [] /\ ex_build reg_inject_tag = [] /\ ex_build reg_name_blank = [].
+Proof. exact name_injection_d16ce3d_refuted. Qed.
+Print Assumptions C14_name_injection_d16ce3d_refuted.
 
 (* ---------------- the code before d16ce3d (F-C14-1, and the wider F-C14-2), kept as refuted variants ---------------- *)
 Theorem C14_bad_registration_blocks_all_unrepaired_refuted :
